@@ -16,7 +16,10 @@ RULE = ("each run: 2-4 generated messages (70% with encrypted parameter areas of
         "twice or more as separate tasks plus a stream decode of their concatenation, stepped by a seeded schedule "
         "(sequential A,B,A / round robin / random / bursty / pre-emption inside pulls, bystanders cancelled); "
         "non-trivial = repeated decodes of the same arguments were compared with == (events, objects, declared type "
-        "identity) across other decodes in between; distinct = distinct (message set, schedule) digests")
+        "identity) across other decodes in between; 0-3 bystanders per run ask for parameter encryption on arbitrary "
+        "commands; 4% of the runs re-decode one of 6 long-lived probe messages first decoded when the worker process "
+        "started (hundreds of runs earlier) and compare with the result kept since then; distinct = distinct "
+        "(message set, schedule) digests")
 REAL = common.REAL_DECODER + ["tpmstream.spec.commands.params_common (cached type synthesis)", "tpmstream.common.object"]
 ASSUMPTIONS = ["all tasks live in one interpreter: module globals are shared simply because they are; generators are the pre-emption points"]
 TIERS = {"quick": {"runs": 10000, "budget": 75}, "thorough": {"runs": 300000, "budget": 780}}
@@ -66,12 +69,88 @@ def make_case(i, rng, tier):
         cmd, rsp = g.exchange()
         sdata, _, _ = gen.serialise_stream([cmd, rsp])
         tasks.append(common.spec("stream", model.STREAM, sdata, None, None, strict=True, source="counting"))
+    # bystanders that ask for parameter encryption on *any* command (also those without a size-prefixed first
+    # parameter - their own outcome is not judged here): every parameter layout of the tables gets its turn at the
+    # type synthesis, which is what a bounded / keyed cache needs in order to forget something
+    L = layout()
+    for j in range(rng.choice((0, 1, 1, 2, 3))):
+        cc = rng.choice(sorted(L.commands))
+        if rng.random() < 0.5:
+            tree = g.response(cc, enc=False, fail=False, n_sessions=1)
+            data, _ = gen.serialise(tree)
+            tasks.append(common.spec("sweep%d" % j, "Response", data, cc, True, strict=rng.random() < 0.5))
+        else:
+            tree, _ = g.command(cc=cc, n_sessions=1, enc=False, resp_enc=False)
+            data, items = gen.serialise(tree)
+            # set the decrypt attribute of the only session in place
+            at = next(it for it in items if it[0] == "P" and it[1].endswith(".sessionAttributes"))
+            b = bytearray(data)
+            b[at[4]] |= 0x20
+            tasks.append(common.spec("sweep%d" % j, "Command", bytes(b), None, None, strict=rng.random() < 0.5))
+    probe = rng.randrange(N_PROBES) if rng.random() < 0.04 else None
     policy = {"ABA": "sequential", "AA": "sequential", "ABCA": "sequential"}.get(hist) if rng.random() < 0.5 else None
     specs, sched = common.perturb(rng, tasks, p_by=0.4)
     if policy == "sequential":
         sched = {"policy": "sequential", "order": [t["id"] for t in specs]}
-    return {"input": {"label": "%s:%s" % (hist, "+".join(m["label"] for m in msgs)), "n": n, "history": hist},
+    return {"input": {"label": "%s:%s" % (hist, "+".join(m["label"] for m in msgs)), "n": n, "history": hist, "probe": probe},
             "tasks": specs, "schedule": sched}
+
+
+# ---- long-lived probes: "no matter which other inputs were decoded before" over the whole life of the process ----------
+N_PROBES = 6
+_PROBES = None
+
+
+def probes():
+    """a fixed set of messages with encrypted parameter areas, decoded once when this process first needs them; the
+    results stay alive and are compared with fresh decodes of the same arguments many runs later"""
+    global _PROBES
+    if _PROBES is None:
+        import random
+        rng = random.Random(1212)
+        g = gen.Gen(rng, gen.Knobs())
+        out = []
+        for j in range(N_PROBES):
+            if j < 4:
+                m = enc_message(rng, g, side=("command", "response")[j % 2])
+                sp = common.spec("probe%d" % j, m["root"], m["data"], m["cc"], m["enc"], strict=True)
+            else:
+                cmd, rsp = g.exchange(n_sessions=1, enc=True, resp_enc=True)
+                sdata, _, _ = gen.serialise_stream([cmd, rsp])
+                sp = common.spec("probe%d" % j, model.STREAM, sdata, None, None, strict=True)
+            out.append((sp, solo(sp)))
+        _PROBES = out
+    return _PROBES
+
+
+def check_probe(res, k, label):
+    from tpmstream.common.object import events_to_obj
+    sp, first = probes()[k]
+    if first.exc_sum is not None:
+        res.count("cross:probe-decode-raised")
+        return
+    again = solo(sp)
+    res.count("hist:probe-rechecked")
+    what = None
+    if again.outcome() != first.outcome() or again.items != first.items:
+        what = "content"
+    elif again.events != first.events:
+        what = "events"
+    elif not (again.value == first.value):
+        what = "object"
+    elif sp["type"] != model.STREAM and hasattr(first.value, "__dataclass_fields__"):
+        try:
+            if not (events_to_obj(first.events, command_code=first._cc(sp.get("cc"))) == first.value):
+                what = "conversion"
+        except Exception:
+            res.count("cross:events_to_obj-raised")
+    if what:
+        res.v("C12.e", "C12.e:probe-drift:%s" % what,
+              "%s: probe %d (%s %s...) was decoded when this process started; decoding the same arguments again now gives "
+              "%s that do not compare equal to the first result%s" % (
+                  label, k, sp["type"], sp["data"][:24], {"content": "events/outcome", "events": "events (declared type objects)",
+                                                          "object": "an object", "conversion": "events whose conversion to an object does"}[what],
+                  "" if what == "content" else " although the comparable forms are equal"))
 
 
 def solo(spec):
@@ -166,6 +245,10 @@ def check(case):
                           "%s: %s decoded alone != its slice of the stream decode%s" % (label, m["kind"], " (declared type objects differ)" if same else ""))
                     break
                 compared += 1
+    if case["input"].get("probe") is not None:
+        check_probe(res, case["input"]["probe"], label)
+    else:
+        probes()        # make sure the probes exist from the first run of this process on
     res.count("comparisons", compared)
     if compared:
         res.nontrivial(sorted(t["data"] for t in dec), res.sched)
